@@ -99,6 +99,11 @@ def onSignal (x : Ctx) : List Action :=
     else if x.reraise then [.logNotice, .logCritical, .flush, .restoreDefault, .reraise, .ret]
     else [.logNotice, .flush, .ret])
 
+/-- the frontend branch: first entrant, backend id published, not the backend thread, a logger exists, re-raise on -/
+def Ctx.frontend (s : Sig) (parkReturns : Bool) : Ctx :=
+  { sig := s, first := true, parkReturns := parkReturns, backendIdSet := true, onBackend := false,
+    hasLogger := true, reraise := true }
+
 /-! ### the extracted control-flow skeleton and its interpreter -/
 
 /-- the conditions `on_signal` tests -/
